@@ -56,19 +56,48 @@ def execute(scn, devs, bindir, scratch, expect=None):
         env["REDO_VERIF_SOCK"] = sockpath
         verdict = None
         err = None
+        js = None
+        pass_fds = ()
+        if scn.get("jobserver"):
+            # the harness plays the GNU-make parent: it owns the token pipe (N-1 tokens) and the cheat pipe
+            n = int(scn["jobserver"])
+            tr, tw = os.pipe()
+            cr, cw = os.pipe()
+            hi = [os.dup2(fd, 200 + i, inheritable=True) for i, fd in enumerate((tr, tw, cr, cw))]
+            for fd in (tr, tw, cr, cw):
+                os.close(fd)
+            tr, tw, cr, cw = hi
+            os.write(tw, b"t" * (n - 1))
+            env["MAKEFLAGS"] = " -j --jobserver-auth=%d,%d --jobserver-fds=%d,%d" % (tr, tw, tr, tw)
+            env["REDO_CHEATFDS"] = "%d,%d" % (cr, cw)
+            pass_fds = (tr, tw, cr, cw)
+            js = {"n": n, "fds": (tr, tw, cr, cw)}
         try:
             for r in scn["roots"]:
                 e = dict(env)
                 e.update(r.get("env", {}))
                 cwd = proj.p / r.get("cwd", ".")
-                sch.start_root(r["name"], r["argv"], str(cwd), e)
+                sch.start_root(r["name"], r["argv"], str(cwd), e, pass_fds=pass_fds)
             verdict = sch.run()
         except SchedError as ex:
             verdict = "sched-error"
             err = str(ex)
         finally:
             sch.kill_all()
+        jsres = None
+        if js:
+            import fcntl as _f
+            out = {}
+            for nm, fd in (("tokens_left", js["fds"][0]), ("cheats_left", js["fds"][2])):
+                _f.fcntl(fd, _f.F_SETFL, _f.fcntl(fd, _f.F_GETFL) | os.O_NONBLOCK)
+                try:
+                    out[nm] = len(os.read(fd, 65536))
+                except BlockingIOError:
+                    out[nm] = 0
+            out["initial_tokens"] = js["n"] - 1
+            jsres = out
         res = {
+            "jobserver": jsres,
             "verdict": verdict, "error": err, "divergence": divergence,
             "steps": sch.steps, "events": sch.events, "flags": sch.flags,
             "roots": {r["name"]: r["rc"] for r in sch.roots},
